@@ -52,7 +52,7 @@ HARNESS_PKGS = {
 }
 
 
-def make_overlay(name, harness=(), engines=(), rt=False, rewrite_sync=(), extra=None):
+def make_overlay(name, harness=(), engines=(), rt=False, rewrite_sync=(), extra=None, rewrite_harness=()):
     """Write build/<name>.overlay.json and return its path.
 
     harness: names from HARNESS_PKGS; every *.go below /verif/harness/<name>/ is
@@ -90,6 +90,13 @@ def make_overlay(name, harness=(), engines=(), rt=False, rewrite_sync=(), extra=
             out = os.path.join(outdir, rel.replace('/', '__') + '.txt')
             rewrite.rewrite_file(src, out)
             repl[src] = out
+    for h, f in rewrite_harness:
+        import rewrite
+        outdir = os.path.join(BUILD, 'rewrite-' + name)
+        os.makedirs(outdir, exist_ok=True)
+        out = os.path.join(outdir, 'harness__%s__%s.txt' % (h, f))
+        rewrite.rewrite_file(os.path.join(VERIF, 'harness', h, f), out)
+        repl[os.path.join(os.path.normpath(os.path.join(REPO, HARNESS_PKGS[h])), 'zz_verif_' + f)] = out
     if extra:
         repl.update(extra)
     if os.environ.get('VERIF_EXTRA_OVERLAY'):
